@@ -38,8 +38,8 @@ var (
 
 // quick defaults (see FINDINGS.md for the timings they were chosen from)
 const (
-	quickFS    = 1500
-	quickCrash = 40
+	quickFS    = 4000
+	quickCrash = 150
 )
 
 func fatal(format string, a ...interface{}) {
